@@ -11,6 +11,7 @@ import (
 	"github.com/welllog/golib/slicez"
 	"pgregory.net/rapid"
 
+	"verif/harness/internal/g"
 	"verif/harness/internal/pb"
 )
 
@@ -39,7 +40,7 @@ func genSet(t *rapid.T) setCase {
 	c := setCase{Fn: rapid.SampledFrom(setFns).Draw(t, "fn"), S1: sl("s1"), S2: sl("s2"), Nil1: rapid.Bool().Draw(t, "nil1"), Dst: rapid.IntRange(0, 4).Draw(t, "dst"),
 		Table: rapid.SliceOfN(rapid.IntRange(0, 2), 6, 6).Draw(t, "table"), V: rapid.IntRange(0, 6).Draw(t, "v")}
 	n := len(c.S1)
-	arg := rapid.OneOf(rapid.IntRange(-3, n+3), rapid.SampledFrom([]int{-1 << 62, 1 << 62, -1, 0, n}))
+	arg := rapid.OneOf(rapid.IntRange(-3, n+3), rapid.IntRange(-3, n+3), rapid.SampledFrom([]int{-1 << 62, 1 << 62, -1, 0, n}), g.ExtremeInt())
 	c.A, c.B = arg.Draw(t, "a"), arg.Draw(t, "b")
 	return c
 }
@@ -386,6 +387,219 @@ func uniq(s []int) []int {
 	return out
 }
 
+// ---------------------------------------------------------------- large inputs: size thresholds, skewed sizes, wide value ranges
+
+type bigCase struct {
+	Fn        string
+	N1, N2    int // lengths
+	V         int // values 0..V-1
+	Seed      uint64
+	Dst       int // 0 nil, 1 fresh, 2 s1[:0], 3 s2[:0]
+	Mod       int // predicate: v%Mod == 0; key: v%Mod
+	DupStride int // every DupStride-th element of s1 repeats an earlier one
+}
+
+var bigFns = []string{"diff", "intersect", "unique", "uniquebykey", "filter", "diffinplace", "intersectinplace", "uniqueinplace", "uniquebykeyinplace", "filterinplace", "chunk"}
+
+func genBig(t *rapid.T) bigCase {
+	size := rapid.OneOf(rapid.IntRange(0, 40), rapid.IntRange(100, 700), rapid.SampledFrom([]int{127, 128, 129, 255, 256, 257, 1023, 1024, 1025, 4095, 4096, 4097}), rapid.IntRange(1000, 9000))
+	return bigCase{Fn: rapid.SampledFrom(bigFns).Draw(t, "fn"), N1: size.Draw(t, "n1"), N2: size.Draw(t, "n2"),
+		V: rapid.SampledFrom([]int{3, 50, 300, 5000, 100000}).Draw(t, "values"), Seed: rapid.Uint64().Draw(t, "seed"), Dst: rapid.IntRange(0, 3).Draw(t, "dst"),
+		Mod: rapid.IntRange(1, 9).Draw(t, "mod"), DupStride: rapid.IntRange(1, 7).Draw(t, "dupStride")}
+}
+
+func runBig(c bigCase, r *pb.Rec) error {
+	if c.N1 < 0 || c.N2 < 0 || c.N1 > 20000 || c.N2 > 20000 || c.V < 1 || c.Mod < 1 || c.DupStride < 1 {
+		return nil
+	}
+	st := c.Seed | 1
+	next := func() int {
+		st ^= st << 13
+		st ^= st >> 7
+		st ^= st << 17
+		return int(st % uint64(c.V))
+	}
+	orig1, orig2 := make([]int, c.N1), make([]int, c.N2)
+	for i := range orig1 {
+		if i > 0 && i%c.DupStride == 0 {
+			orig1[i] = orig1[int(st>>20)%i] // a duplicate of an earlier element, wherever it is
+			next()
+		} else {
+			orig1[i] = next()
+		}
+	}
+	for i := range orig2 {
+		if i%3 == 0 && c.N1 > 0 {
+			orig2[i] = orig1[int(st>>24)%c.N1] // shared with s1
+			next()
+		} else {
+			orig2[i] = next()
+		}
+	}
+	s1, s2 := append([]int(nil), orig1...), append([]int(nil), orig2...)
+	in2 := make(map[int]bool, len(orig2))
+	for _, v := range orig2 {
+		in2[v] = true
+	}
+	pred := func(v int) bool { return v%c.Mod == 0 }
+	key := func(v int) int { return v % c.Mod }
+	var dst []int
+	switch c.Dst {
+	case 1:
+		dst = make([]int, 0, 8)
+	case 2:
+		dst = s1[:0]
+	case 3:
+		dst = s2[:0]
+	}
+	fail := func(f string, a ...any) error {
+		return fmt.Errorf("%s on generated slices (len(s1)=%d len(s2)=%d values<%d seed=%d dst layout %d mod %d dupStride %d): %s", c.Fn, c.N1, c.N2, c.V, c.Seed, c.Dst, c.Mod, c.DupStride, fmt.Sprintf(f, a...))
+	}
+	selected := func(keep func(int) bool) []int {
+		var out []int
+		for _, v := range orig1 {
+			if keep(v) {
+				out = append(out, v)
+			}
+		}
+		return out
+	}
+	firstBy := func(k func(int) int) []int {
+		seen := map[int]bool{}
+		var out []int
+		for _, v := range orig1 {
+			if !seen[k(v)] {
+				seen[k(v)] = true
+				out = append(out, v)
+			}
+		}
+		return out
+	}
+	diffAt := func(got, want []int) string {
+		if len(got) != len(want) {
+			return fmt.Sprintf("%d elements, want %d", len(got), len(want))
+		}
+		for i := range got {
+			if got[i] != want[i] {
+				return fmt.Sprintf("element %d = %d, want %d", i, got[i], want[i])
+			}
+		}
+		return ""
+	}
+	perm := func() error {
+		if multiset(s1) != multiset(orig1) {
+			return fail("the argument slice is no longer a permutation of its original content")
+		}
+		return nil
+	}
+	id := func(v int) int { return v }
+	switch c.Fn {
+	case "diff":
+		if d := diffAt(slicez.Diff(dst, s1, s2), selected(func(v int) bool { return !in2[v] })); d != "" {
+			return fail("%s", d)
+		}
+	case "intersect":
+		if d := diffAt(slicez.Intersect(dst, s1, s2), selected(func(v int) bool { return in2[v] })); d != "" {
+			return fail("%s", d)
+		}
+	case "unique":
+		if c.Dst == 3 {
+			dst = nil
+		}
+		if d := diffAt(slicez.Unique(dst, s1), firstBy(id)); d != "" {
+			return fail("%s", d)
+		}
+	case "uniquebykey":
+		if c.Dst == 3 {
+			dst = nil
+		}
+		if d := diffAt(slicez.UniqueByKey(dst, s1, key), firstBy(key)); d != "" {
+			return fail("%s", d)
+		}
+	case "filter":
+		if c.Dst == 3 {
+			dst = nil
+		}
+		if d := diffAt(slicez.Filter(dst, s1, pred), selected(pred)); d != "" {
+			return fail("%s", d)
+		}
+	case "diffinplace":
+		got := slicez.DiffInPlaceFirst(s1, s2)
+		if multiset(got) != multiset(selected(func(v int) bool { return !in2[v] })) {
+			return fail("wrong multiset (%d elements)", len(got))
+		}
+		if err := perm(); err != nil {
+			return err
+		}
+	case "intersectinplace":
+		got := slicez.IntersectInPlaceFirst(s1, s2)
+		if multiset(got) != multiset(selected(func(v int) bool { return in2[v] })) {
+			return fail("wrong multiset (%d elements)", len(got))
+		}
+		if err := perm(); err != nil {
+			return err
+		}
+	case "uniqueinplace":
+		got := slicez.UniqueInPlace(s1)
+		if multiset(got) != multiset(firstBy(id)) {
+			return fail("wrong multiset (%d elements)", len(got))
+		}
+		if err := perm(); err != nil {
+			return err
+		}
+	case "uniquebykeyinplace":
+		got := slicez.UniqueByKeyInPlace(s1, key)
+		ks := map[int]bool{}
+		for _, v := range got {
+			if ks[key(v)] {
+				return fail("two results with key %d", key(v))
+			}
+			ks[key(v)] = true
+		}
+		if len(got) != len(firstBy(key)) {
+			return fail("%d results, want %d", len(got), len(firstBy(key)))
+		}
+		if err := perm(); err != nil {
+			return err
+		}
+	case "filterinplace":
+		got := slicez.FilterInPlace(s1, pred)
+		if multiset(got) != multiset(selected(pred)) {
+			return fail("wrong multiset (%d elements)", len(got))
+		}
+		if err := perm(); err != nil {
+			return err
+		}
+	case "chunk":
+		size := c.Mod * c.DupStride * (1 + c.N2%40)
+		var cat []int
+		chunks := slicez.Chunk(s1, size)
+		for i, ch := range chunks {
+			if len(ch) != size && !(i == len(chunks)-1 && len(ch) > 0 && len(ch) < size) {
+				return fail("chunk %d of %d has %d elements (size %d)", i, len(chunks), len(ch), size)
+			}
+			cat = append(cat, ch...)
+		}
+		if d := diffAt(cat, orig1); d != "" {
+			return fail("concatenation of the chunks: %s", d)
+		}
+	default:
+		return nil
+	}
+	if c.Dst != 3 && !eq(s2, orig2) && c.Fn != "chunk" {
+		return fail("the second slice was modified")
+	}
+	small, large := c.N1, c.N2
+	if small > large {
+		small, large = large, small
+	}
+	r.ClassIf(large >= 1024, "an input of >= 1024 elements")
+	r.ClassIf(large >= 1024 && small*8 <= large, "one input at least 8 times longer than the other")
+	r.ClassIf(c.V >= 5000, "values up to 5000 or more")
+	r.NonTrivialIf(large >= 256)
+	return nil
+}
+
 // ---------------------------------------------------------------- FlexSlice
 
 type fop struct {
@@ -547,6 +761,9 @@ func init() {
 	pb.Register("slice_functions", pb.Options{Base: 40000, Required: []string{"slice longer than 32", "dst aliases an input with duplicates present", "in-place variant", "nil slice", "argument out of range", "short last chunk", "process error propagated", "fresh memory checked"},
 		Rule: "slices over 0..5 (duplicates common, empty, nil), dst in {nil, fresh, s1[:0], s2[:0], non-empty fresh}, predicates/keys from drawn tables, index/length/chunk arguments -3..len+3 and +-2^62; oracle: the definitions written directly (first-slice order, first occurrence, multiset + permutation for InPlace, concatenation and piece sizes, clamping tables, fresh memory); non-trivial = first slice has duplicates and >= 3 elements"},
 		genSet, runSet)
+	pb.Register("slice_functions_large", pb.Options{Base: 1500, Required: []string{"an input of >= 1024 elements", "one input at least 8 times longer than the other", "values up to 5000 or more"},
+		Rule: "Diff/Intersect/Unique/UniqueByKey/Filter, their InPlace variants and Chunk on generated slices of 0..9000 elements (lengths around 128/256/1024/4096 sampled, the two inputs of independent size so that skewed pairs are common), values below 3..100000, every DupStride-th element of s1 a duplicate of an earlier one, a third of s2 shared with s1, dst in {nil, fresh, s1[:0], s2[:0]}; oracle: the definitions (order-sensitive for the copying forms, multiset + permutation for the in-place forms); non-trivial = an input of >= 256 elements"},
+		genBig, runBig)
 	pb.Register("flexslice", pb.Options{Base: 15000, Required: []string{"capacity shrank", "prepend within capacity", "prepend reallocating", "prepend reallocating after a shrink", "prepend within capacity after a shrink", "continued on a sub-slice"},
 		Rule: "<= 40 operations Append(k)/Prepend(k)/Get/Remove/Pop xN/Shift xN/SubSlice (and continuing on the sub-slice) with k up to 40 so that growth and the shrink threshold (cap > 8, len <= cap/4) are crossed; oracle: slice model after every step; non-trivial = the capacity shrank at least once"},
 		genFlex, runFlex)
